@@ -538,5 +538,14 @@ def r13_10(ctx):
              "(new modification time) although nothing changed", f.loc((other or writes)[0])))
 
 
+def r13_11(ctx):
+    """R13.11 an unchanged configuration touches nothing, sync after sync: the old value of every symbol is reset at the start of
+    each _load_old_vals() (C12 R12.6) - a value that survives from an earlier sync of the same instance makes every later
+    sync re-touch the option's dependency file."""
+    from . import c12
+    from .common import delegate
+    delegate(ctx, c12.r12_6, lambda c: "_load_old_vals" in c)
+
+
 def rules():
-    return [("R13.10", r13_10, 1), ("R13.9", r13_9, 1), ("R13.8", r13_8, 1), ("R13.7", r13_7, 1), ("R13.6", r13_6, 4), ("R13.5", r13_5, 3), ("R13.1", r13_1, 6), ("R13.1b", r13_1b, 2), ("R13.2", r13_2, 4), ("R13.3", r13_3, 4), ("R13.4", r13_4, 3)]
+    return [("R13.11", r13_11, 1), ("R13.10", r13_10, 1), ("R13.9", r13_9, 1), ("R13.8", r13_8, 1), ("R13.7", r13_7, 1), ("R13.6", r13_6, 4), ("R13.5", r13_5, 3), ("R13.1", r13_1, 6), ("R13.1b", r13_1b, 2), ("R13.2", r13_2, 4), ("R13.3", r13_3, 4), ("R13.4", r13_4, 3)]
